@@ -30,7 +30,7 @@ func init() {
 			"the IdP checks endpoint and pre-existing parameters, SAMLRequest inflating to exactly the document, RelayState presence and value, SigAlg naming the algorithm and the signature verifying with crypto/rsa or crypto/ecdsa over SAMLRequest=..[&RelayState=..]&SigAlg=.. rebuilt from the raw URL octets under the published certificate; distinct = shape hash (builder, relay class, endpoint, key config, algorithm, outcome)",
 		Directed:   c14Directed,
 		Run:        c14Run,
-		MustHit:    []string{"builder=BuildAuthURLRedirect", "builder=BuildLogoutURLRedirect", "builder=BuildAuthURL", "builder=AuthRedirect", "relay_absent", "relay_with_space", "relay_with_reserved", "endpoint_with_query", "signed_redirect", "unsigned_redirect", "ec_signer"},
+		MustHit:    []string{"builder=BuildAuthURLRedirect", "builder=BuildLogoutURLRedirect", "builder=BuildAuthURL", "builder=AuthRedirect", "relay_absent", "relay_with_space", "relay_with_reserved", "endpoint_with_query", "signed_redirect", "unsigned_redirect", "ec_signer", "unsupported_algorithm_configured", "decorated_document"},
 		RandomRuns: map[string]int{"quick": 6000, "thorough": 50000},
 	})
 }
@@ -44,7 +44,7 @@ func c14Directed(tier string) [][]uint64 {
 		for rs := uint64(0); rs < uint64(len(c14Relays)); rs++ {
 			for sg := uint64(0); sg < 2; sg++ {
 				// followed by DrawOut's encstyle, sigstyle, ecsigner, alg, canon, hostile
-				out = append(out, []uint64{b, rs, sg, 1 + (b+rs)%5, (rs + sg) % 6, (b + rs + sg) % 4, (b + rs) % 5, 0, rs % 2})
+				out = append(out, []uint64{b, rs, sg, (b + rs + sg) % 5, 1 + (b+rs)%5, (rs + sg) % 6, (b + rs + sg) % 4, (b + rs) % 7, 0, rs % 2})
 			}
 		}
 	}
@@ -56,6 +56,7 @@ func c14Run(r *core.Run) {
 	builder := redirectBuilders[t.Int(len(redirectBuilders), "c14.builder")]
 	relay := c14Relays[t.Int(len(c14Relays), "c14.relay")]
 	signReq := t.Int(2, "c14.signrequests") == 0
+	decor := t.Int(5, "c14.decor") // caller-supplied document: tokens outside the root element
 	o := DrawOut(r, 0, true)
 	o.Cfg.SignRequests = signReq
 	if !o.Build() {
@@ -75,6 +76,12 @@ func c14Run(r *core.Run) {
 	if world.Key(o.WantSignKey).EC != nil {
 		r.Probe("ec_signer")
 	}
+	if o.UnsupportedAlg {
+		r.Probe("unsupported_algorithm_configured")
+	}
+	if decor != 0 {
+		r.Probe("decorated_document")
+	}
 	endpoint := o.Cfg.IdPSSOURL
 	var doc *etree.Document
 	var u string
@@ -88,6 +95,7 @@ func c14Run(r *core.Run) {
 			if err != nil {
 				return err
 			}
+			decorate(doc, decor)
 			u, err = sp.BuildAuthURLRedirect(relay, doc)
 			signingApplies = signReq
 		case "BuildLogoutURLRedirect":
@@ -96,6 +104,7 @@ func c14Run(r *core.Run) {
 			if err != nil {
 				return err
 			}
+			decorate(doc, decor)
 			u, err = sp.BuildLogoutURLRedirect(relay, doc)
 			signingApplies = true
 		case "BuildAuthURLFromDocument":
@@ -103,6 +112,7 @@ func c14Run(r *core.Run) {
 			if err != nil {
 				return err
 			}
+			decorate(doc, decor)
 			u, err = sp.BuildAuthURLFromDocument(relay, doc)
 		case "BuildAuthURL":
 			u, err = sp.BuildAuthURL(relay)
@@ -259,6 +269,21 @@ func c14Run(r *core.Run) {
 	}
 	if string(reported) != string(o.WantSignCert.DER) {
 		r.Fail("signature", "C14/signed-with-unexpected-key/"+o.KeyCfg(), ctx)
+	}
+}
+
+// decorate adds what a caller-supplied document may carry beside its root.
+func decorate(doc *etree.Document, mode int) {
+	switch mode {
+	case 1:
+		doc.InsertChildAt(0, etree.NewProcInst("xml", `version="1.0" encoding="UTF-8"`))
+	case 2:
+		doc.InsertChildAt(0, etree.NewComment(" request "))
+	case 3:
+		doc.AddChild(etree.NewText("\n"))
+	case 4:
+		doc.InsertChildAt(0, etree.NewProcInst("xml", `version="1.0"`))
+		doc.AddChild(etree.NewComment(" end "))
 	}
 }
 
